@@ -1170,6 +1170,152 @@ fn fault_state(h: &mut Harness, rep: &mut Reporter, ops: &[Op], only: Option<Fau
     rep.bulk(n, n);
 }
 
+/// run the history and return (model, pristine segment bytes) when the files are exactly what the model says
+fn pristine_state(h: &mut Harness, ops: &[Op]) -> Option<(Model, Vec<SegFile>)> {
+    let (wal, model) = h.exec(ops, false);
+    drop(wal.ok()?);
+    let files = read_segments(&h.dir);
+    if files.len() != model.segs.len() {
+        return None;
+    }
+    for ((seq, bytes), (mseq, frs)) in files.iter().zip(model.segs.iter()) {
+        let labels = h.crc.parse(bytes);
+        let want: Vec<String> = frs.iter().map(|f| format!("{}(fid{},pg{})", Lbl::Img(*f), FILE_IDS[f.t as usize], f.p)).collect();
+        if seq != mseq || labels != want {
+            return None;
+        }
+    }
+    Some((model, files.into_iter().map(|(seq, orig)| SegFile { seq, orig }).collect()))
+}
+
+/// faults of the fault-then-continue pass: only in the segment new frames are appended to (the last one)
+fn continue_faults(model: &Model) -> Vec<Fault> {
+    let (seg, frs) = model.segs.last().unwrap();
+    let seg = *seg;
+    let mut v = Vec::new();
+    let len = (frs.len() * FS) as u64;
+    for i in 0..frs.len() as u64 {
+        let base = i * FS as u64;
+        for b in 0..HDR as u64 {
+            v.push(Fault::Flip { seg, off: base + b, mask: 0x01 });
+        }
+        v.push(Fault::Flip { seg, off: base + HDR as u64 + 8192, mask: 0xFF });
+        // the sector holding the frame's header, and one in the middle of its payload
+        v.push(Fault::ZeroSector { seg, k: base / 512 });
+        v.push(Fault::ZeroSector { seg, k: (base + HDR as u64 + 8192) / 512 });
+    }
+    let mut offs: BTreeSet<u64> = BTreeSet::new();
+    for i in 0..=frs.len() as u64 {
+        let b = i * FS as u64;
+        for x in [b.wrapping_sub(1), b, b + 1] {
+            if x < len {
+                offs.insert(x);
+            }
+        }
+    }
+    for off in offs {
+        v.push(Fault::Trunc { seg, off });
+    }
+    v
+}
+
+/// fault-then-continue: corrupt the last segment, reopen, append ONE new frame, drop, reopen and replay.
+/// Expected: exactly the frames before the first damaged one (write order) followed by the new frame.
+fn continue_state(h: &mut Harness, rep: &mut Reporter, ops: &[Op], only: Option<(Fault, (u8, u8))>) {
+    let Some((model, segs)) = pristine_state(h, ops) else {
+        rep.count("continue_states_skipped_history_diverged", 1);
+        return;
+    };
+    rep.count("continue_states", 1);
+    let (last_seq, last_frs) = model.segs.last().unwrap().clone();
+    let si = model.segs.len() - 1;
+    let all = model.frames();
+    let faults = match only {
+        Some((f, _)) => vec![f],
+        None => continue_faults(&model),
+    };
+    let mut n = 0u64;
+    for f in &faults {
+        if fault_seg(f) != last_seq {
+            continue;
+        }
+        let Some(dmg) = damage(f, &segs[si].orig, last_frs.len()) else {
+            rep.count("faults_skipped_no_byte_changed", 1);
+            continue;
+        };
+        let behind: Vec<Fr> = last_frs[dmg + 1..].to_vec();
+        // page variants: (a) a page with an older valid image BEHIND the damaged frame (else the damaged frame's own page),
+        // (b) a page no frame of the log touches
+        let mut pages: Vec<((u8, u8), &'static str)> = Vec::new();
+        match only {
+            Some((_, tp)) => pages.push((tp, "replayed")),
+            None => {
+                let a = behind.last().map(|x| (x.t, x.p)).unwrap_or((last_frs[dmg].t, last_frs[dmg].p));
+                pages.push((a, if behind.is_empty() { "page-of-damaged-frame" } else { "page-with-stale-image-behind-damage" }));
+                let free = (0..2u8).flat_map(|t| (0..NPAGES as u8).map(move |p| (t, p))).find(|tp| !all.iter().any(|x| (x.t, x.p) == *tp));
+                if let Some(tp) = free {
+                    pages.push((tp, "untouched-page"));
+                }
+            }
+        }
+        for (tp, variant) in pages {
+            let newf = Fr { t: tp.0, p: tp.1, v: model.next_v };
+            let case = || json!({"part": "fault-continue", "ops": enc_ops(ops), "fault": f.to_json(), "page": [tp.0, tp.1]});
+            rep.begin_case(&case().to_string());
+            materialise(&h.dir, &segs, Some(f)).expect("materialise corrupted log directory");
+            let dir = h.dir.clone();
+            let img = image(newf);
+            let step: Result<(), String> = res_str(vcore::catch(|| -> eyre::Result<()> {
+                let wal = Wal::open(&dir)?;
+                wal.write_frame_with_file_id(newf.p as u32, NPAGES, &img, FILE_IDS[newf.t as usize])?;
+                drop(wal);
+                Ok(())
+            }));
+            n += 1;
+            rep.count("continue_cases", 1);
+            rep.count(&format!("continue_cases_{variant}"), 1);
+            rep.count(&format!("continue_cases_{}", f.kind()), 1);
+            if !behind.is_empty() {
+                rep.count("continue_cases_with_valid_frames_behind_the_damage", 1);
+            }
+            let mut want: Vec<Fr> = model.segs[..si].iter().flat_map(|s| s.1.iter().copied()).collect();
+            want.extend_from_slice(&last_frs[..dmg]);
+            want.push(newf);
+            let es = expect_from(&want);
+            if let Err(e) = step {
+                let cls = if e.starts_with("PANIC") { "panic-on-reopen-append" } else { "error-on-reopen-append" };
+                rep.outcome(&format!("continue-diverged:{}:{cls}", f.kind()));
+                rep.violation("C03", "corrupt-continue", &format!("C03/corrupt-continue/{}/{cls}", f.kind()), case, "open + append return Ok", &e);
+                continue;
+            }
+            let files_after = show_files(&h.crc, &h.dir);
+            let obs = h.recover();
+            let Some(generic) = classify(&es, &obs) else {
+                rep.outcome(&format!("continue-ok:{}:{variant}", f.kind()));
+                continue;
+            };
+            // frames that must never be seen again: the damaged one and everything written after it
+            let stale: Vec<Fr> = last_frs[dmg..].to_vec();
+            let recs: Vec<&RecObs> = std::iter::once(&obs.whole).chain(obs.per.iter()).collect();
+            let sees_stale = recs.iter().any(|r| r.pages.iter().any(|l| matches!(l, Lbl::Img(x) if stale.contains(x))));
+            let new_ok = obs.whole.pages.get(newf.p as usize) == Some(&Lbl::Img(newf)) && obs.per[newf.t as usize].pages.get(newf.p as usize) == Some(&Lbl::Img(newf));
+            let num = |s: &str| s.parse::<i64>().unwrap_or(-1);
+            let cls = if generic == "panic" || generic == "recover-error" {
+                generic
+            } else if sees_stale || (new_ok && num(&obs.whole.count) > num(&es.whole.count)) {
+                "stale-frame-replayed-after-append"
+            } else if !new_ok {
+                "new-frame-lost"
+            } else {
+                generic
+            };
+            rep.outcome(&format!("continue-diverged:{}:{cls}", f.kind()));
+            rep.violation("C03", "corrupt-continue", &format!("C03/corrupt-continue/{}/{cls}", f.kind()), case, &es.show(), &format!("{} | files after append: {}", obs.show(), files_after));
+        }
+    }
+    rep.bulk(n, n);
+}
+
 /// distinct final file shapes (segment numbers + (table,page) sequence per segment) of all histories up to `depth`,
 /// each with the first (shortest) history producing it — computed on the model alone, identically in every worker
 fn fault_seeds(spec: &str) -> Vec<Vec<Op>> {
@@ -1222,7 +1368,7 @@ impl Check for C03 {
         let mut s = Spec::new(
             "C03",
             "model_checking",
-            "part 1 (histories): every sequence of operations on a real Wal in an empty directory, breadth-first (shortest first), every history re-executed from scratch and all oracles (recover, recover_for_file per file id, read_page) evaluated after EVERY history; a history is not extended once replay diverges from the model. 2 file ids x 3 pages, every frame carries a unique recognisable image. Alphabets: full = write(tbl,page) x6, write_batch[2] x3, rotate, truncate, reopen, reopen+write x2 (14 ops) to depth 4 (quick) / 5 (thorough) in SyncMode::Full and to depth 3 / 4 in SyncMode::Off; medium (10 ops) to depth 5 (thorough only; --opt depth_medium=6 for more); small (7 ops) to depth 5 / 7. read_page is evaluated on histories up to length 3 / 4. Distinct = distinct (alphabet, sync mode, op sequence); non-trivial = writes at least one frame. part 2 (faults): for every distinct final file shape (segment numbers + (table,page) sequence per segment) of the histories medium-alphabet<=2 + small-alphabet<=3 (quick) / medium-alphabet<=4 (thorough), each case on files re-created from saved pristine bytes (Wal::open may trim the latest segment): every truncation offset k*512 and b-1,b,b+1 around every frame boundary b, zero-fill of every 512-byte sector, flips of every header byte (masks 01 and 80) and of 65 payload bytes per frame (mask FF), zero-extension of the last segment by 1, 512, F-1, F, F+1, 2F bytes (F = frame size 16416); one case = one fault on one file shape; expected = frames before the first damaged frame in write order.",
+            "part 1 (histories): every sequence of operations on a real Wal in an empty directory, breadth-first (shortest first), every history re-executed from scratch and all oracles (recover, recover_for_file per file id, read_page) evaluated after EVERY history; a history is not extended once replay diverges from the model. 2 file ids x 3 pages, every frame carries a unique recognisable image. Alphabets: full = write(tbl,page) x6, write_batch[2] x3, rotate, truncate, reopen, reopen+write x2 (14 ops) to depth 4 (quick) / 5 (thorough) in SyncMode::Full and to depth 3 / 4 in SyncMode::Off; medium (10 ops) to depth 5 (thorough only; --opt depth_medium=6 for more); small (7 ops) to depth 5 / 7. read_page is evaluated on histories up to length 3 / 4. Distinct = distinct (alphabet, sync mode, op sequence); non-trivial = writes at least one frame. part 2 (faults): for every distinct final file shape (segment numbers + (table,page) sequence per segment) of the histories medium-alphabet<=2 + small-alphabet<=3 (quick) / medium-alphabet<=4 (thorough), each case on files re-created from saved pristine bytes (Wal::open may trim the latest segment): every truncation offset k*512 and b-1,b,b+1 around every frame boundary b, zero-fill of every 512-byte sector, flips of every header byte (masks 01 and 80) and of 65 payload bytes per frame (mask FF), zero-extension of the last segment by 1, 512, F-1, F, F+1, 2F bytes (F = frame size 16416); one case = one fault on one file shape; expected = frames before the first damaged frame in write order. part 3 (fault-then-continue): for the same file shapes, every flip (mask 01) of every header byte, one payload flip, zero-fill of the header sector and of a mid-payload sector of every frame, and truncation at b-1,b,b+1 of every frame boundary of the LAST segment; then Wal::open, append ONE new frame (variant a: for a page that has an older valid image behind the damaged frame, else the page of the damaged frame; variant b: for a page nothing touches), drop, reopen, replay; expected = frames before the damaged one followed by the new frame.",
         );
         s.assumptions = &[
             "expected replay comes from the harness's own model (frames since last truncate, segment order) and its own page images; file layout is parsed by an independent CRC-64/ECMA-182 reader",
@@ -1238,7 +1384,7 @@ impl Check for C03 {
 
     fn run(&self, ctx: &Ctx, rep: &mut Reporter) {
         let mut h = Harness::new(&ctx.scratch);
-        for c in ["histories", "frames_written", "rotations", "truncations", "reopens", "reopen_appends", "corruptions_tried", "frames_applied_on_recovery", "fault_states", "fault_states_with_frames_in_several_segments", "corruptions_damaging_a_frame", "histories_ending_with_multiple_segments"] {
+        for c in ["histories", "frames_written", "rotations", "truncations", "reopens", "reopen_appends", "corruptions_tried", "frames_applied_on_recovery", "fault_states", "fault_states_with_frames_in_several_segments", "continue_cases", "continue_cases_with_valid_frames_behind_the_damage", "continue_cases_untouched-page", "corruptions_damaging_a_frame", "histories_ending_with_multiple_segments"] {
             rep.expect_nonzero(c);
         }
         let d_full = ctx.opt("depth").and_then(|s| s.parse().ok()).unwrap_or(ctx.tier.pick(4usize, 5usize));
@@ -1264,29 +1410,43 @@ impl Check for C03 {
                 rep.violation("C03", "replay", &format!("C03/history/[]/{}", d.class), || json!({"part": "history", "alphabet": "full", "nosync": false, "ops": []}), &d.expected, &d.observed);
             }
         }
-        if only.is_empty() || only == "full" {
-            complete &= explore(ctx, &mut h, rep, "full", false, d_full, d_rp);
-        }
-        if complete && (only.is_empty() || only == "small") {
-            complete &= explore(ctx, &mut h, rep, "small", false, d_small, d_rp);
-        }
-        if complete && (only.is_empty() || only == "fault") {
-            // part 2
-            let a_fault = ctx.opt("fault_histories").unwrap_or(ctx.tier.pick("medium@2+small@3", "medium@4")).to_string();
-            rep.bound("fault_histories_alphabet_at_depth", json!(a_fault));
-            let seeds = fault_seeds(&a_fault);
-            rep.bound("fault_file_shapes", json!(seeds.len()));
+        // fault seeds (file shapes) are computed on the model alone, identically in every worker
+        let a_fault = ctx.opt("fault_histories").unwrap_or(ctx.tier.pick("medium@2+small@3", "medium@4")).to_string();
+        rep.bound("fault_histories_alphabet_at_depth", json!(a_fault));
+        let seeds = fault_seeds(&a_fault);
+        rep.bound("fault_file_shapes", json!(seeds.len()));
+        // order: part 3 (fault-then-continue; small, so it always completes), part 1 full alphabet, part 2 (faults), remaining history passes
+        for pass in ["continue", "full", "fault"] {
+            if !complete {
+                break;
+            }
+            if pass == "full" {
+                if only.is_empty() || only == "full" {
+                    complete &= explore(ctx, &mut h, rep, "full", false, d_full, d_rp);
+                }
+                continue;
+            }
+            if !(only.is_empty() || only == "fault" || only == pass) {
+                continue;
+            }
             for (i, ops) in seeds.iter().enumerate() {
                 if !ctx.mine(i as u64) {
                     continue;
                 }
-                fault_state(&mut h, rep, ops, None);
+                if pass == "continue" {
+                    continue_state(&mut h, rep, ops, None);
+                } else {
+                    fault_state(&mut h, rep, ops, None);
+                }
                 if ctx.expired() {
-                    rep.capped(&format!("deadline in fault part at file shape {i} of {}", seeds.len()));
+                    rep.capped(&format!("deadline in {pass} pass at file shape {i} of {}", seeds.len()));
                     complete = false;
                     break;
                 }
             }
+        }
+        if complete && (only.is_empty() || only == "small") {
+            complete &= explore(ctx, &mut h, rep, "small", false, d_small, d_rp);
         }
         if complete && (only.is_empty() || only == "nosync") {
             complete &= explore(ctx, &mut h, rep, "full", true, d_nosync, d_rp.min(d_nosync.saturating_sub(1)));
@@ -1302,6 +1462,14 @@ impl Check for C03 {
     fn replay(&self, ctx: &Ctx, case: &Value, rep: &mut Reporter) {
         let mut h = Harness::new(&ctx.scratch);
         let ops = dec_ops(&case["ops"]);
+        if case["part"].as_str() == Some("fault-continue") {
+            let tp = (case["page"][0].as_u64().unwrap_or(0) as u8 % 2, case["page"][1].as_u64().unwrap_or(0) as u8 % NPAGES as u8);
+            if let Some(f) = Fault::from_json(&case["fault"]) {
+                continue_state(&mut h, rep, &ops, Some((f, tp)));
+            }
+            rep.case(2, true);
+            return;
+        }
         if case["part"].as_str() == Some("fault") {
             if let Some(f) = Fault::from_json(&case["fault"]) {
                 fault_state(&mut h, rep, &ops, Some(f));
